@@ -512,7 +512,12 @@ func (ctx Ctx) selectorMethod(f *ast.SelectorExpr, call *ast.CallExpr) coq.Expr 
 		}
 	}
 
-	namedTy := deref.(*types.Named)
+	namedTy, ok := deref.(*types.Named)
+	if !ok || namedTy.Obj().Pkg() == nil {
+		// a type parameter, or a universe type such as error
+		ctx.unsupported(f, "method call on a value of type %v", selectorType)
+		return nil
+	}
 	tyName := ctx.qualifiedName(namedTy.Obj())
 	callArgs := append([]ast.Expr{f.X}, args...)
 	fullName := coq.MethodName(tyName, f.Sel.Name)
@@ -725,7 +730,7 @@ func (ctx Ctx) copyExpr(n ast.Node, dst ast.Expr, src ast.Expr) coq.Expr {
 	if _, ok := ctx.typeOf(src).Underlying().(*types.Slice); !ok {
 		ctx.unsupported(n, "copy from %v (only slices can be copied)", ctx.typeOf(src))
 	}
-	e := sliceElem(ctx.typeOf(dst))
+	e := ctx.sliceElem(n, ctx.typeOf(dst))
 	return coq.NewCallExpr(coq.GallinaIdent("SliceCopy"),
 		ctx.coqTypeOfType(n, e),
 		ctx.expr(dst), ctx.expr(src))
@@ -748,7 +753,7 @@ func (ctx Ctx) callExpr(s *ast.CallExpr) coq.Expr {
 		if len(s.Args) != 2 {
 			ctx.unsupported(s, "append must have exactly one element or slice to append")
 		}
-		elemTy := sliceElem(ctx.typeOf(s.Args[0]).Underlying())
+		elemTy := ctx.sliceElem(s, ctx.typeOf(s.Args[0]))
 		if s.Ellipsis == token.NoPos {
 			return coq.NewCallExpr(coq.GallinaIdent("SliceAppend"),
 				ctx.coqTypeOfType(s, elemTy),
@@ -1229,7 +1234,7 @@ func (ctx Ctx) derefExpr(e ast.Expr) coq.Expr {
 	}
 	return coq.DerefExpr{
 		X:  ctx.expr(e),
-		Ty: ctx.coqTypeOfType(e, ptrElem(ctx.typeOf(e))),
+		Ty: ctx.coqTypeOfType(e, ctx.ptrElem(e, ctx.typeOf(e))),
 	}
 }
 
@@ -1552,7 +1557,7 @@ func (ctx Ctx) sliceRangeStmt(s *ast.RangeStmt) coq.Expr {
 		Key:   ctx.identBinder(key),
 		Val:   ctx.identBinder(val),
 		Slice: ctx.expr(s.X),
-		Ty:    ctx.coqTypeOfType(s.X, sliceElem(ctx.typeOf(s.X).Underlying())),
+		Ty:    ctx.coqTypeOfType(s.X, ctx.sliceElem(s.X, ctx.typeOf(s.X))),
 		Body:  ctx.blockStmt(s.Body, ExprValLocal),
 	}
 }
@@ -1840,6 +1845,11 @@ func isLoggingCall(e ast.Expr) bool {
 }
 
 func (ctx Ctx) assignStmt(s *ast.AssignStmt) coq.Binding {
+	if len(s.Lhs) > 4 {
+		// the printer destructures at most four results
+		ctx.unsupported(s, "binding more than 4 results")
+		return coq.Binding{}
+	}
 	if len(s.Rhs) == 1 && isLoggingCall(s.Rhs[0]) {
 		// the call becomes a comment, which leaves the names unbound
 		ctx.unsupported(s, "results of a logging call")
